@@ -34,6 +34,7 @@ M = [
  ('ties match rules to the connection', 'C14', 'match rules were never associated with their connection (survived disconnects) and RemoveMatch was not implemented'),
  ("GetManagedObjects on '/' does not list", 'C16', "GetManagedObjects('/') listed the root object itself (introduced by the first prefix repair, corrected at once)"),
  ('accepts the empty match rule', 'C12', "AddMatch('') - the rule without constraints - raised ValueError in the bus rule parser"),
+ ("does not list a child with an empty name", 'C16', "Introspect('/') with an object exported at '/' listed a child with an empty name"),
  ('RequestName queues a requester', 'C13', 'request without the replace flag refused instead of queued; a waiting client requesting again queued twice'),
  ('waiting for a name leaves the queue', 'C13', 'ReleaseName by a queued client answered NOT_OWNER and left it queued; a queued client that disconnected later became a dead owner'),
 ]
